@@ -25,7 +25,7 @@ STATE_MEASURE = "distinct (feature, present emodulus keys, temp feature present,
 PROBES = ["read_cached_then_config_changed", "key_deleted_after_read", "emodulus_case_A", "emodulus_case_B", "emodulus_case_C",
           "viscosity_changed_while_temperature_present", "temp_feature_replaced", "plugin_read", "unavailable_read_raises",
           "child_after_refresh", "file_backed", "scenario_switch", "ml_score_replaced", "temperature_zero", "grandchild_backing",
-          "temp_feature_tail_changed"]
+          "temp_feature_tail_changed", "temp_set_through_child", "child_read_without_explicit_refresh"]
 COMPONENTS = {"real": ["dclab RTDCBase.__getitem__/__contains__, AncillaryFeature (hash, availability, priorities)",
                        "af_emodulus/af_basic/af_fl_max_ctc/af_image_contour/af_ml_class, PlugInFeature, temporary features",
                        "RTDC_Dict / RTDC_HDF5 / RTDC_Hierarchy"],
@@ -117,6 +117,8 @@ class World:
             self.child = dclab.new_dataset(self.mid)
             ctx.probe("grandchild_backing")
         self.read_before = set()
+        self.need_refresh = False
+        self.skip_refresh_once = False
         self.last_edit_fresh = False
         self.last_edit = "none"
         self.dirty_since_read = {}
@@ -205,7 +207,7 @@ class World:
             return {"k": "del", "sec": sec, "key": key}
         if x < 0.52:
             names = ["tmp_c06", "tmp_c06"] + ([] if self.k.get("ml_innate", True) else ["ml_score_abc", "ml_score_xyz", "ml_score_abc"])
-            return {"k": "temp", "dseed": r.randrange(1 << 30), "name": r.choice(names)}
+            return {"k": "temp", "dseed": r.randrange(1 << 30), "name": r.choice(names), "via": r.choice(["base", "base", "child", "child", "mid"])}
         if x < 0.60 and self.child is not None:
             return {"k": "refresh"}
         if x < 0.70:
@@ -230,6 +232,10 @@ class World:
         return ["emodulus"]
 
     def mark_edit(self, what):
+        # (a temporary feature set through the youngest child updates that child itself)
+        if not (what.startswith("temp") and getattr(self, "skip_refresh_once", False)):
+            self.need_refresh = True
+            self.skip_refresh_once = False
         self.last_edit_fresh = True
         self.last_edit = what
         for f in list(self.read_before):
@@ -257,7 +263,8 @@ class World:
                     calc["emodulus medium"] = op["medium"]
                     if sc == "C":
                         calc["emodulus temperature"] = op["temperature"]
-            for sec, key, val in (("imaging", "pixel size", 0.34), ("setup", "channel width", 20.0), ("setup", "flow rate", 0.04)):
+            for sec, key, val in (("imaging", "pixel size", 0.34), ("setup", "channel width", 20.0), ("setup", "flow rate", 0.04),
+                                  ("setup", "chip region", "channel")):
                 if key not in cfg[sec]:
                     cfg[sec][key] = val
             ctx.probe("scenario_switch")
@@ -306,9 +313,17 @@ class World:
                 ctx.probe("temp_feature_replaced")
                 if name.startswith("ml_score"):
                     ctx.probe("ml_score_replaced")
+            via = op.get("via", "base") if self.child is not None else "base"
+            target = {"base": self.base, "mid": self.mid if self.mid is not None else self.base, "child": self.child}.get(via, self.base)
+            pending = self.need_refresh
             with ctx.sut("C06.set_temporary_feature"):
-                dclab.set_temporary_feature(self.base, name, vals)
+                # (no filters in this world: every level holds all events, the same array fits each of them)
+                dclab.set_temporary_feature(target, name, vals)
             self.temps[name] = vals
+            # set through the dataset that is read: it is documented to update itself, no rejuvenate() by the caller
+            self.skip_refresh_once = bool(target is self.child and self.child is not None and not pending)
+            if self.skip_refresh_once:
+                ctx.probe("temp_set_through_child")
             ctx.log("a", f"temp {name}", seeds.short_hash(vals))
             self.mark_edit("temp " + name)
             return
@@ -360,10 +375,13 @@ class World:
     def read_and_check(self, feat, only_avail=False):
         ctx = self.ctx
         ds = self.ds
-        if self.child is not None:
+        if self.child is not None and getattr(self, "skip_refresh_once", False) and not self.need_refresh:
+            ctx.probe("child_read_without_explicit_refresh")
+        elif self.child is not None:
             # children keep what they have until rejuvenate(): judge after a refresh only
             with ctx.sut("C06.rejuvenate"):
                 self.child.rejuvenate()
+            self.need_refresh = False
             ctx.probe("child_after_refresh")
         with warnings.catch_warnings():
             warnings.simplefilter("ignore")
